@@ -133,4 +133,12 @@ CHECKS = {
         "permutations, simulated data equal dataset matrix @ clp by label, noise seeds are reproducible. Convergence is restated as bounded progress; no liveness claim.",
    note="Trusted base: MatrixProvider.calculate_dataset_matrix (judged by C04-C07). A single local minimum is not a violation; fewer than a quarter of a family's starts recovering is.",
    technique="runtime monitoring: simulate-then-fit round-trip oracle with recorded objective evaluations; statistical recovery-rate monitor"),
+ "C20": dict(category="exploration",
+   text="For generated valid specifications over all builtin item types every reference position of a hand-written table (model-item references: scalar / list / "
+        "dict; parameter references: scalar / list / dict; dataset group; megacomplexes of datasets) is mutated in turn - definition removed, label misspelled, "
+        "parameter removed - plus duplicated unique and combined exclusive megacomplexes; validate()/valid()/get_issues() must return, name the label and report "
+        "invalid; valid specs must validate, fill and evaluate without lookup errors and generate_parameters() must leave no issue. Per specification the mutation "
+        "space is finite and enumerated (all positions thorough; all of the first spec + a third of the others quick).",
+   note="Trusted base: the reference table REFS / PARAM_REFS in vf/props/c20.py. Numerical failures of the one evaluation are not lookup errors.",
+   technique="runtime monitoring: single-mutation enumeration against the real validator with recorders on the issue/fill functions"),
 }
